@@ -314,6 +314,10 @@ class Parametrized(Box):
     >>> assert c.lambdify(phi)(.25) == Rz(.25) >> Rz(-.25)
     """
     def __init__(self, name, dom, cod, data=None, **params):
+        datatype = params.get('datatype', None)
+        if datatype is not None and hasattr(data, 'free_symbols')\
+                and not data.free_symbols:
+            data = datatype(data)
         self.drawing_name = '{}({})'.format(name, data)
         Box.__init__(
             self, name, dom, cod, data=data,
